@@ -131,6 +131,10 @@ theorem fileName_affixes_partial {U : Char → Bool} {lower : Str → Str} {name
     · subst hn; rw [hp]
       exact layer_prefix_kept (by simp [isDotSp, hc1, hc2]) k
 
+/- OPEN (not proved, not counted): the exact guard. For every `U` that is false on `.` and space,
+   layerPrefix <+: p  ↔  ¬ (name.take 248).all isDotSp   (the first 248 characters are not all periods/spaces).
+   The driver uses exactly this condition as the feature `dotsp-name` of the recorded finding. -/
+
 /-- …and even then the six letters `glyphs` are there -/
 theorem fileName_layer_glyphs {U : Char → Bool} {lower : Str → Str} {name p : Str}
     {accept : Nat → Str → Bool}
